@@ -58,6 +58,11 @@ class CholLinearOperator(RootLinearOperator):
     def _cholesky(
         self: Float[LinearOperator, "*batch N N"], upper: Optional[bool] = False
     ) -> Float[LinearOperator, "*batch N N"]:
+        if getattr(self.root, "upper", self.upper) != self.upper:
+            # The stored factor has the other triangle than its orientation suggests (as for the inverse of a
+            # Cholesky operator, (L L^T)^-1 = (L^-1)^T (L^-1) with a lower triangular L^-1): it is a root, but not the
+            # triangular Cholesky factor
+            return LinearOperator._cholesky(self, upper=upper)
         if upper == self.upper:
             return self.root
         else:
@@ -133,7 +138,17 @@ class CholLinearOperator(RootLinearOperator):
     ]:
         if num_tridiag:
             return super()._solve(rhs, preconditioner, num_tridiag=num_tridiag)
-        return self.root._cholesky_solve(rhs, upper=self.upper)
+        return self._root_cholesky_solve(rhs)
+
+    def _root_cholesky_solve(self, rhs):
+        if getattr(self.root, "upper", self.upper) == self.upper:
+            return self.root._cholesky_solve(rhs, upper=self.upper)
+        # The triangle of the stored factor does not match the orientation: two triangular solves
+        if self.upper:
+            # (R^T R)^-1 v = R^-1 R^-T v
+            return self.root.solve(self.root._transpose_nonbatch().solve(rhs))
+        # (L L^T)^-1 v = L^-T L^-1 v
+        return self.root._transpose_nonbatch().solve(self.root.solve(rhs))
 
     @cached
     def to_dense(self: Float[LinearOperator, "*batch M N"]) -> Float[Tensor, "*batch M N"]:
@@ -149,8 +164,10 @@ class CholLinearOperator(RootLinearOperator):
         """
         Returns the inverse of the CholLinearOperator.
         """
+        # (L L^T)^-1 = (L^-1)^T (L^-1) and (R^T R)^-1 = (R^-1) (R^-1)^T: the orientation flips,
+        # while the inverse factor keeps the triangle of the factor
         Linv = self.root.inverse()  # this could be slow in some cases w/ structured lazies
-        return CholLinearOperator(TriangularLinearOperator(Linv, upper=not self.upper), upper=not self.upper)
+        return CholLinearOperator(Linv, upper=not self.upper)
 
     def inv_quad(
         self: Float[LinearOperator, "*batch N N"],
@@ -229,7 +246,7 @@ class CholLinearOperator(RootLinearOperator):
         is_vector = right_tensor.ndim == 1
         if is_vector:
             right_tensor = right_tensor.unsqueeze(-1)
-        res = self.root._cholesky_solve(right_tensor, upper=self.upper)
+        res = self._root_cholesky_solve(right_tensor)
         if is_vector:
             res = res.squeeze(-1)
         if left_tensor is not None:
